@@ -812,8 +812,11 @@ def finding_witnesses():
 
 
 def replay(ctx, case):
+    """re-run exactly that case; a failure that is a recorded finding of the unchanged tree does not count"""
     r = check_case(case)
-    return r[1] if r else None
+    if r is None or (ctx is not None and r[0] in ctx.known):
+        return None
+    return r[1]
 
 
 def check_case(case):
